@@ -101,6 +101,16 @@ func init() {
 		Units:      []unit{ircUnit("recipients", "^TestVerifC12$", 40000, 500000)},
 	})
 	props = append(props, prop{
+		ID: "C13", Title: "privileged effects require the privilege", Level: "exploration",
+		LevelText:  "Pre/post diff of the privileged state (channel modes, key, bans, per-member operator flag, topic, membership, invitations, IRC-operator and services flags, network bans, session liveness) around every entry of generated histories; each difference must satisfy the authorisation predicate of the statement evaluated on the pre-state (inductive over the history because privilege changes are themselves checked). Captcha tokens of all validity classes are generated and verified independently.",
+		LevelNote:  "Ban matching in the oracle is anchored (a subset of the unanchored server matching), the one-minute grace after a solved captcha is honoured, services-caused changes are authorised by the services flag whose acquisition is itself checked.",
+		Technique:  "property-based testing (rapid): state-diff oracle with authorisation predicates",
+		DesignRef:  "4/C13",
+		Rule:       "case = generated history of 10-100 entries biased to MODE/KICK/INVITE/TOPIC/OPER/KILL/GLINE/JOIN with keys, invitations, bans and captcha tokens; non-trivial = history with >=3 privileged events (an authorised change of privileged state or a refusal 481/482/473/474/475/464); labels c13:<event>/<actor standing or restriction set> count histories; distinct = hash of the entry list",
+		Assumptions: []string{"services links act with full privilege once authenticated", "predicates are evaluated on the implementation's own pre-state (see DESIGN.md section 6)"},
+		Units:      []unit{ircUnit("privileges", "^TestVerifC13$", 30000, 400000)},
+	})
+	props = append(props, prop{
 		ID: "C14", Title: "IRC state stays consistent", Level: "exploration",
 		LevelText:  "Generated mixed histories (nick changes incl. case-only and []\\ / {}| variants, joins/parts/kicks/quits/kills/glines, deletions and expiries, services SVS* commands, small session/channel limits, Marshal/Unmarshal round trips as history steps) with an in-package invariant walk over the three indexes after every entry.",
 		LevelNote:  "The case mapping and the validity grammar are re-stated in the harness independently of the code; SVSNICK only onto free nicknames and only for regular client sessions (the property's quantifier).",
@@ -109,6 +119,22 @@ func init() {
 		Rule:       "case = generated history of 20-120 entries biased to membership changes; invariant walk after every entry (and after every inserted snapshot round trip); non-trivial = history with a nick change of a channel member AND a forced removal (KICK/KILL) AND a session that ended while in >=2 channels; distinct = hash of the entry list",
 		Assumptions: []string{"SVSNICK targets regular client sessions and free nicknames", "services introduce pseudo-clients with valid nicknames"},
 		Units:      []unit{ircUnit("invariants", "^TestVerifC14$", 40000, 500000)},
+	})
+}
+
+func init() {
+	props = append(props, prop{
+		ID: "C17", Title: "session lifecycle", Level: "exploration",
+		LevelText:  "Three generated checks: (a) after every entry of a generated history (each prefix is a possible lag of the observed node) GetSession is queried for every id created so far, its neighbours and ids newer than anything applied, also after snapshot+restore of the prefix; (b) generated sets of sessions whose last activity lies on either side of the configured expiration (>= 2 s away from it, with services links and pseudo-clients) are swept by ExpireSessions and the result is compared with the exact expected set; (c) after every session end the nickname must be free (a new session takes it on a clone), no channel may list it and no later line may name it as recipient.",
+		LevelNote:  "(b) uses the wall clock as the code does; cases keep >= 2 s distance from the threshold so that the test's own latency cannot decide. Pseudo-clients that outlive a killed hybrid link share the link's id and are not counted as 'the ended session being addressed'.",
+		Technique:  "property-based testing (rapid): history invariants over lookups per applied prefix + exact-set oracle for the expiry sweep",
+		DesignRef:  "4/C17",
+		Rule:       "unit lifecycle: case = generated history of 10-100 entries, non-trivial = some prefix had a live and an already ended session AND an ended session had shared a channel with others; unit expiry: case = 1-7 sessions with generated idle times around one of 4 expirations, non-trivial = sessions on both sides of the threshold plus a services link with pseudo-clients; distinct = hash of the case",
+		Assumptions: []string{"ids are unique and increasing (raft indexes)", "expiry cases stay >= 2 s away from the threshold"},
+		Units: []unit{
+			ircUnit("lifecycle", "^TestVerifC17$", 16000, 200000),
+			ircUnit("expiry", "^TestVerifC17Expiry$", 20000, 300000),
+		},
 	})
 }
 
